@@ -146,6 +146,11 @@ def _fd_check(h, loss_fn, seed, site, cfg, stats, seq, rtol=1e-4, envelope=None)
     if not bool(torch.isfinite(g).all()) or not bool(torch.isfinite(L)):
         _set_flat(ps, theta0)
         raise Inconclusive("non-finite loss or gradient at the base point")
+    if float(g.abs().max()) > 1e8 * (1.0 + abs(float(L))):
+        # a recurrence that explodes over hundreds of steps (gradient 1e17 on a loss of 1e3): chaotic in the parameters, no
+        # difference quotient exists at any usable h - not a generic parameter point
+        _set_flat(ps, theta0)
+        raise Inconclusive("exploding recurrence: gradient %.1e on a loss of %.1e" % (float(g.abs().max()), float(L)))
     gen = torch.Generator()
     gen.manual_seed(seed)
     ok_all = True
@@ -203,6 +208,10 @@ def _fd_check(h, loss_fn, seed, site, cfg, stats, seq, rtol=1e-4, envelope=None)
 
 def _pl_admissible(h, d, hedge, cspec):
     """is the P&L on the current buffers finite (and positive for the isoelastic utility)?"""
+    for u_ in d.underliers():
+        sp_ = dict(u_.named_buffers()).get("spot")
+        if sp_ is not None and not (bool((sp_ > 0).all()) and bool(torch.isfinite(sp_).all())):
+            return False   # a non-positive price (Euler local-volatility scheme over a long horizon): log / BS inputs undefined
     try:
         with torch.no_grad():
             pl = h.compute_portfolio(d, hedge=hedge) - d.payoff()
